@@ -304,7 +304,15 @@ pub fn cfg_json(toks: &[&str]) -> Option<serde_json::Value> {
             "frag" => conf["merge"]["thresholds"]["fragmentation"] = json!(frac(v)?),
             "dead" => conf["merge"]["thresholds"]["dead_bytes"] = json!(v.parse::<u64>().ok()?),
             "small" => conf["merge"]["thresholds"]["small_file"] = json!(v.parse::<u64>().ok()?),
-            "policy" => conf["merge"]["policy"] = json!(v),
+            "policy" => {
+                conf["merge"]["policy"] = match v.strip_prefix("window:") {
+                    Some(w) => {
+                        let (a, b) = w.split_once('-')?;
+                        json!({"window": {"start": a.parse::<u32>().ok()?, "end": b.parse::<u32>().ok()?}})
+                    }
+                    None => json!(v),
+                }
+            }
             "interval" => conf["merge"]["check_interval_ms"] = json!(v.parse::<u64>().ok()?),
             "jitter" => conf["merge"]["check_jitter"] = json!(frac(v)?),
             "tfrag" => conf["merge"]["triggers"]["fragmentation"] = json!(frac(v)?),
@@ -327,6 +335,20 @@ pub fn make_config(cfg: &serde_json::Value, dir: &Path) -> Result<Config, String
     let mut conf: Config = serde_json::from_value(cfg.clone()).map_err(|e| e.to_string())?;
     conf.path = dir.to_path_buf();
     Ok(conf)
+}
+
+fn bg_threads() -> usize {
+    let mut n = 0;
+    if let Ok(rd) = fs::read_dir("/proc/self/task") {
+        for e in rd.flatten() {
+            if let Ok(c) = fs::read_to_string(e.path().join("comm")) {
+                if c.trim_end().starts_with("bitcask-backgr") {
+                    n += 1;
+                }
+            }
+        }
+    }
+    n
 }
 
 fn data_ids(dir: &Path) -> Vec<(u64, char, u64)> {
@@ -676,6 +698,75 @@ impl Store {
             ["t.join", t, ms] => Some(self.threads.join(t, ms.parse().ok()?)),
             ["t.reset"] => {
                 self.threads.reset();
+                Some("ok".into())
+            }
+            ["drop"] => {
+                // drop the owning store object, keep a handle
+                self.kv = None;
+                let t = self.take_trace();
+                Some(format!("ok{}", t))
+            }
+            ["procstat"] => {
+                let threads = fs::read_dir("/proc/self/task").map(|d| d.count()).unwrap_or(0);
+                let fds = fs::read_dir("/proc/self/fd").map(|d| d.count()).unwrap_or(0);
+                let mut names = vec![];
+                if let Ok(rd) = fs::read_dir("/proc/self/fd") {
+                    for e in rd.flatten() {
+                        if let Ok(t) = fs::read_link(e.path()) {
+                            let t = t.to_string_lossy().to_string();
+                            if t.contains("bitcask") {
+                                names.push(t.rsplit('/').next().unwrap_or("").to_string());
+                            }
+                        }
+                    }
+                }
+                names.sort();
+                Some(format!("threads={} fds={} bg={} storefds={}", threads, fds, bg_threads(), if names.is_empty() { "-".into() } else { names.join(",") }))
+            }
+            ["waitbg", n, ms] => {
+                // wait until at most n background-task threads of the store are alive
+                let n: usize = n.parse().ok()?;
+                let t0 = std::time::Instant::now();
+                let limit = std::time::Duration::from_millis(ms.parse().ok()?);
+                loop {
+                    let b = bg_threads();
+                    if b <= n {
+                        return Some(format!("bg={} ok", b));
+                    }
+                    if t0.elapsed() > limit {
+                        return Some(format!("bg={} timeout", b));
+                    }
+                    std::thread::sleep(std::time::Duration::from_millis(5));
+                }
+            }
+            ["waitfor", what, ms] => {
+                // wait for background activity without any client action: a hint file appearing
+                // (= a merge ran) or an fsync in the trace; answers with the elapsed milliseconds
+                let t0 = std::time::Instant::now();
+                let limit = std::time::Duration::from_millis(ms.parse().ok()?);
+                loop {
+                    let seen = match *what {
+                        "hint" => data_ids(&self.dir).iter().any(|(_, c, _)| *c == 'h'),
+                        "fsync" => {
+                            let log = self.io.as_ref()?.drain();
+                            let calls = logical_calls(&log);
+                            let hit = calls.iter().any(|c| matches!(c, Call::Fsync(_)));
+                            self.trace.extend(calls);
+                            hit
+                        }
+                        _ => return None,
+                    };
+                    if seen {
+                        return Some(format!("seen {}", t0.elapsed().as_millis()));
+                    }
+                    if t0.elapsed() > limit {
+                        return Some("timeout".into());
+                    }
+                    std::thread::sleep(std::time::Duration::from_millis(3));
+                }
+            }
+            ["sleep", ms] => {
+                std::thread::sleep(std::time::Duration::from_millis(ms.parse().ok()?));
                 Some("ok".into())
             }
             ["idle"] => Some(format!("idle {}", self.handle.as_ref()?.verif_dump().idle_readers)),
